@@ -1,0 +1,45 @@
+//go:build verif
+
+// Contracts for the deductive verification in /verif (govc). Comment-only:
+// with the build tag off this file is not compiled, with it on it declares nothing.
+package runtime
+
+// ---------------------------------------------------------------------------
+// C03: Go values placed inside a JavaScript string literal arrive as data only.
+//
+// Languages derived from the replacement tables on every run:
+//@ lang JS_ESC_UNITS = entries(lowUnicodeReplacementTable, jsStrReplacementTable, "\\u2028", "\\u2029")
+//@ lang JS_PASS_ASCII = unmapped(lowUnicodeReplacementTable, jsStrReplacementTable)
+// JS_PASS, JS_PASS_STAR, JS_STR_OUT are built from them in /verif/contracts/lang/js.lang.
+
+//@ func replace [C03]
+//@   requires replacementTable == jsStrReplacementTable
+//@   ensures inL(result, JS_STR_OUT)
+//@   loop 1 invariant 0 <= written && written <= i && i <= len(s)
+//@   loop 1 invariant inL(b.String(), JS_STR_OUT)
+//@   loop 1 invariant inL(s[written:i], JS_PASS_STAR)
+//@   loop 1 invariant written == 0 ==> b.String() == ""
+//@   use before b.WriteString#1: js_step(b.String(), s[written:i], repl)
+//@   use loop1.end: js_pass_byte(r)
+//@   use loop1.end: js_pass_high(s[i-w:i])
+//@   use loop1.end: js_pass_cat(s[written:i-w], s[i-w:i])
+//@   use return.1: js_pass_out(s)
+//@   use before b.WriteString#3: js_out_pass(b.String(), s[written:])
+
+// Loop-step lemmas (regular-language closure facts).
+//@ lemma js_step(x, y, z): inL(x, JS_STR_OUT) && inL(y, JS_PASS_STAR) && inL(z, JS_ESC_UNITS) ==> inL(cat(x, y, z), JS_STR_OUT) by reglang
+//@ lemma js_pass_cat(x, y): inL(x, JS_PASS_STAR) && inL(y, JS_PASS_STAR) ==> inL(cat(x, y), JS_PASS_STAR) by reglang
+//@ lemma js_pass_high(x): inL(x, HIGH_BYTES_PLUS) ==> inL(x, JS_PASS_STAR) by reglang
+//@ lemma js_pass_out(x): inL(x, JS_PASS_STAR) ==> inL(x, JS_STR_OUT) by reglang
+//@ lemma js_out_pass(x, y): inL(x, JS_STR_OUT) && inL(y, JS_PASS_STAR) ==> inL(cat(x, y), JS_STR_OUT) by reglang
+// An ASCII rune that reaches the default arm of the switch is a pass-through byte.
+//@ lemma js_pass_byte(c): 0 <= c && c < 128 && !(c < len(lowUnicodeReplacementTable)) && !(c < len(jsStrReplacementTable) && jsStrReplacementTable[c] != "") ==> inL(chr(c), JS_PASS_STAR) by compute(0, 256)
+
+// The property, per JavaScript position (specification languages in js.lang):
+//@ lemma js_safe_in_single_quotes(x) [C03]: inL(x, JS_STR_OUT) ==> inL(x, SAFE_IN_SQ) by reglang
+//@ lemma js_safe_in_double_quotes(x) [C03]: inL(x, JS_STR_OUT) ==> inL(x, SAFE_IN_DQ) by reglang
+//@ lemma js_safe_in_backticks(x) [C03]: inL(x, JS_STR_OUT) ==> inL(x, SAFE_IN_BACKTICK) by reglang
+//@ lemma js_cannot_end_script(x) [C03]: inL(x, JS_STR_OUT) ==> inL(x, NO_SCRIPT_END) by reglang
+// Every escape unit denotes exactly the rune it replaces (so evaluating the literal gives back the string).
+//@ lemma js_unit_low(c) [C03]: 0 <= c && c < len(lowUnicodeReplacementTable) ==> jsunit(lowUnicodeReplacementTable[c]) == c by compute(0, 64)
+//@ lemma js_unit_tbl(c) [C03]: len(lowUnicodeReplacementTable) <= c && c < len(jsStrReplacementTable) && jsStrReplacementTable[c] != "" ==> jsunit(jsStrReplacementTable[c]) == c by compute(0, 256)
